@@ -110,6 +110,7 @@ func checkC16(c *Ctx) {
 	// teardown removes the subscriptions the connection registered: insert and remove agree on where a filter ends
 	c.endOfLevelsSignal()
 	c.lookupsConsultTheTree()
+	c.noWaitOnNilChannels()
 	c.condLocksExclusive()
 }
 
